@@ -249,13 +249,21 @@ func setupFile(v6 bool, args ...string) (handler.Handler6, handler.Handler4, err
 					continue
 				}
 
-				log.Infof("updated to %d leases from %s", len(StaticRecords), filename)
+				log.Infof("updated to %d leases from %s", numRecords(), filename)
 			}
 		}()
 	}
 
-	log.Infof("loaded %d leases from %s", len(StaticRecords), filename)
+	log.Infof("loaded %d leases from %s", numRecords(), filename)
 	return Handler6, Handler4, nil
+}
+
+// numRecords returns the size of the table currently served. Another instance's
+// watcher may be replacing the table at any moment, so it is read under the lock
+func numRecords() int {
+	recLock.RLock()
+	defer recLock.RUnlock()
+	return len(StaticRecords)
 }
 
 func loadFromFile(v6 bool, filename string) error {
